@@ -42,6 +42,14 @@ namespace Pistache::Tcp
 
     void Transport::flush()
     {
+        // The writes queue has a single consumer, the transport's own thread. A
+        // flush from another thread (a response streamed by an application
+        // thread) leaves the writes it has queued to that thread, which the
+        // queue has already notified; draining the queue from here as well
+        // would write chunks out of order.
+        if (std::this_thread::get_id() != context().thread())
+            return;
+
         handleWriteQueue(true);
     }
 
